@@ -137,9 +137,9 @@ func (rc *refCell) accepts(k g.CoreState, o int) bool {
 }
 
 func runC15(c *Ctx) {
-	n := int64(12000)
+	n := int64(96000)
 	if c.Thorough() {
-		n = 800000
+		n = 6000000
 	}
 	c.Cases(n, func(idx int64, r *Rng) {
 		bc := genBattle(r, 4, r.Chance(1, 3))
